@@ -150,6 +150,43 @@ def _do_extract(repo, profile, target_tag, out):
     os.rename(tmp, out)
 
 
+def extract_fixture(name="controls"):
+    """Facts of the positive-control crate /verif/fixtures/<name> (same driver, same flags)."""
+    ensure_driver()
+    d = os.path.join(VERIF, "fixtures", name)
+    h = hashlib.sha256()
+    for dp, dn, fn in os.walk(d):
+        dn[:] = sorted(x for x in dn if x != "target")
+        for f in sorted(fn):
+            with open(os.path.join(dp, f), "rb") as fh:
+                h.update(f.encode() + b"\0" + fh.read())
+    with open(os.path.join(DRIVER_DIR, "src", "main.rs"), "rb") as fh:
+        h.update(hashlib.sha256(fh.read()).digest())
+    th = h.hexdigest()[:16]
+    out = os.path.join(CACHE, "facts", "fixture-%s-%s" % (name, th))
+    os.makedirs(os.path.join(CACHE, "facts"), exist_ok=True)
+    with open(os.path.join(CACHE, "facts", "extract-fixture.lock"), "w") as lk:
+        fcntl.flock(lk, fcntl.LOCK_EX)
+        if not os.path.exists(os.path.join(out, name + ".json")):
+            tmp = out + ".tmp%d" % os.getpid()
+            shutil.rmtree(tmp, ignore_errors=True)
+            os.makedirs(tmp)
+            target = os.path.join(CACHE, "target-fixture-" + name)
+            shutil.rmtree(os.path.join(target, "debug", ".fingerprint"), ignore_errors=True)
+            nonce = "%d-%d" % (os.getpid(), time.time_ns())
+            env = dict(os.environ)
+            env.update(LD_LIBRARY_PATH=os.path.join(sysroot(), "lib"), RUSTFLAGS=PROFILES["dev"], RUSTC_WORKSPACE_WRAPPER=DRIVER, CARGO_TARGET_DIR=target, CARGO_NET_OFFLINE="true", CFDP_SA_OUT=tmp, CFDP_SA_NONCE=nonce)
+            env.pop("RUSTC_WRAPPER", None)
+            r = _run(["cargo", "+nightly", "check", "--offline", "--lib", "-q"], cwd=d, env=env)
+            if r.returncode != 0 or not os.path.exists(os.path.join(tmp, name + ".json")):
+                shutil.rmtree(tmp, ignore_errors=True)
+                raise RuntimeError("positive-control extraction failed:\n" + r.stdout[-2000:])
+            shutil.rmtree(out, ignore_errors=True)
+            os.rename(tmp, out)
+    with open(os.path.join(out, name + ".json")) as fh:
+        return {name: json.load(fh)}
+
+
 if __name__ == "__main__":
     t = time.time()
     f, th = extract(profile=sys.argv[1] if len(sys.argv) > 1 else "dev")
